@@ -11,6 +11,7 @@ import (
 	"github.com/aperturerobotics/bifrost/peer"
 	"github.com/aperturerobotics/bifrost/transport"
 	"github.com/aperturerobotics/bifrost/util/verifhook"
+	"github.com/pkg/errors"
 	"github.com/quic-go/quic-go"
 	"github.com/sirupsen/logrus"
 )
@@ -164,6 +165,17 @@ func (t *Transport) DialPeer(ctx context.Context, peerID peer.ID, as string) (li
 	lnk, err := dl.result.Await(ctx)
 	if err != nil {
 		return nil, false, err
+	}
+
+	// the dialer may have been started on behalf of another peer id: only
+	// report success with a link to the peer that was requested.
+	if peerID != "" && lnk.GetRemotePeer() != peerID {
+		return nil, false, errors.Errorf(
+			"dialed %s: expected peer %s, got link with %s",
+			as,
+			peerID.String(),
+			lnk.GetRemotePeer().String(),
+		)
 	}
 
 	return lnk, false, err
